@@ -59,6 +59,10 @@ def std_cases(con, kind, spec, vector_rhs=True, foreign=True, int_range=(-300, 3
         con.cases.append(Case("foreign-vec", [VS("w1", "a"), VSHAPE(other_kind(kind))("w2", "b")], spec))
         con.cases.append(Case("foreign-bv", [VS("w1", "a"), BVShape("w2", "b")], spec))
         con.cases.append(Case("none", [VS("w1", "a"), NONE], spec))
+    for c in con.cases:
+        # proof hints (instances of proved lemma schemas, path-sensitive simplification of x mod 2**w):
+        # chains of summaries (resize -> negate -> add) otherwise take 15-80 s depending on machine load
+        c.interp_flags = {"arith_hints": True}
     return con
 
 
@@ -178,6 +182,8 @@ def sub_spec(sx, a, b, target_width=None):
 for K in (Unsigned, Signed):
     mod = UMOD if K is Unsigned else SMOD
     std_cases(contract(mod + "sub", PROPS), K, sub_spec)
+    for _c in C.CONTRACTS[mod + "sub"].cases:
+        _c.timeout_factor = 4  # three chained summaries (resize, negate, add): 4 s alone, 12 s and more on a busy machine
     if K is Unsigned:
         # Unsigned.__sub__ forwards everything to sub(); Signed.__sub__ filters
         # foreign operands itself (NotImplemented)
